@@ -29,7 +29,7 @@ ASSUMPTIONS = ['content = k, strand mode, sample names and rows; ska_version and
 REQUIRED = {'quick': ['cli_copies_judged', 'lib_copies_judged', 'files_64bit', 'files_128bit', 'accepted_identical', 'rejected',
                       'subcommand_samples'],
             'thorough': ['cli_copies_judged', 'lib_copies_judged', 'files_64bit', 'files_128bit', 'accepted_identical', 'rejected',
-                         'subcommand_samples', 'multi_frame_files', 'crash_points_kill', 'crash_points_enospc', 'asan_copies_judged']}
+                         'subcommand_samples', 'multi_frame_files', 'crash_points_kill', 'crash_points_enospc', 'asan_copies_judged', 'targeted_copies_judged']}
 MEM_GB = 3
 
 
@@ -80,6 +80,9 @@ def make_files(tier, rng, ctx):
     if tier == 'thorough':
         big = G.rseq(rng, 8000)
         files.append({'name': 'manyframes64', 'k': 31, 'path': build('manyframes64', 31, [[big], [big[:4000] + G.rseq(rng, 4000)], [G.rseq(rng, 4500)]]), 'cli': False})
+        # > 65536 rows: too big for a complete enumeration; damage is targeted at the frame structure plus a random sample
+        hg = G.rseq(rng, 40000)
+        files.append({'name': 'huge64', 'k': 31, 'path': build('huge64', 31, [[hg], [hg[:20000] + G.rseq(rng, 20000)]]), 'cli': False, 'targeted': True})
         files.append({'name': 'single_strand', 'k': 21, 'path': build('single_strand', 21, [[G.rseq(rng, 120)]], rcmode=False), 'cli': True})
     for f in files:
         f['size'] = os.path.getsize(f['path'])
@@ -89,7 +92,21 @@ def make_files(tier, rng, ctx):
 def prepare(tier, seed, rng, scale, ctx):
     files = make_files(tier, rng, ctx)
     descs = []
-    for f in files:
+    for f in [x for x in files if x.get('targeted')]:
+        data = open(f['path'], 'rb').read()
+        # chunk boundaries of the snappy frame format
+        bounds, i = [], 0
+        while i + 4 <= len(data):
+            bounds.append(i)
+            i += 4 + (data[i + 1] | (data[i + 2] << 8) | (data[i + 3] << 16))
+        tr = sorted({min(len(data) - 1, max(0, b + d)) for b in bounds for d in (-2, -1, 0, 1, 2, 3, 4, 5)} | {rng.randrange(len(data)) for _ in range(3000)})
+        fl = sorted({(b + o) * 8 + bit for b in bounds for o in range(8) for bit in range(8) if b + o < len(data)} | {rng.randrange(len(data) * 8) for _ in range(30000)})
+        for mode, idx in (('trunc', tr), ('flip', fl)):
+            for a in range(0, len(idx), 1500):
+                lf = ctx.write('%s_%s_%d.idx' % (f['name'], mode, a), '\n'.join(str(x) for x in idx[a:a + 1500]) + '\n')
+                descs.append({'route': 'lib', 'mode': mode, 'list_file': lf, 'n': len(idx[a:a + 1500]), 'skf_file': f['path'], 'name': f['name'], 'k': f['k']})
+        descs.append({'route': 'meta', 'skf_file': f['path'], 'name': f['name'], 'k': f['k'], 'size': f['size']})
+    for f in [x for x in files if not x.get('targeted')]:
         size = f['size']
         # library route: all truncation points, all bit flips, in shards
         nshard_t = max(1, size // 20000)
@@ -129,6 +146,9 @@ def prepare(tier, seed, rng, scale, ctx):
     return descs
 
 
+# note: files marked 'targeted' are not enumerated completely; coverage_extra says so
+
+
 def content_of(txt):
     return sorted(l for l in txt.split('\n') if l and not l.startswith('ska_version') and not l.startswith('k_bits'))
 
@@ -144,6 +164,27 @@ def damaged(data, mode, i):
 def run_lib(desc, ctx, res):
     asan = desc.get('asan', False)
     H = ctx.bins['harness-asan'] if asan else ctx.bins['harness']
+    if desc.get('list_file'):
+        # targeted list of damage indices (huge file): one process, no bisection
+        p = ctx.sh(H, 'skfdamage', desc['skf_file'], desc['mode'], 'list', desc['list_file'], ctx.path('dmg.skf'), timeout=1800, mem_gb=None if asan else MEM_GB)
+        done = None
+        for l in p.stdout.split('\n'):
+            f = l.split('\t')
+            if f[0] == 'DONE':
+                done = f
+            elif f[0] == 'DIFF':
+                res.violate('C19:lib:%s:%s' % (desc['mode'], desc['name']), '%s: %s at %s is accepted (as %s-bit) and reads as different content'
+                            % (desc['name'], 'truncation' if desc['mode'] == 'trunc' else 'bit flip', f[2], f[3]),
+                            {'file': desc['name'], 'mode': desc['mode'], 'index': int(f[2])})
+            elif f[0] == 'SAME':
+                res.count('accepted_identical')
+        if not done:
+            raise Inconclusive('targeted damage shard died: ' + p.stderr[-200:])
+        res.evals += desc['n']
+        res.nontrivial_n += desc['n']
+        res.count('targeted_copies_judged', desc['n'])
+        res.count('rejected', int(done[4]))
+        return
     todo = [(desc['start'], desc['end'])]
     while todo:
         a, b = todo.pop()
@@ -422,5 +463,5 @@ def run_case(desc, ctx):
 
 def coverage_extra(tier, counters, sets):
     return {'exhaustive': True,
-            'exhaustive_scope': 'per listed file: every truncation point and every single-bit flip through the library load; the '
+            'exhaustive_scope': 'per listed file (except huge64 in the thorough tier, > 65536 rows, where damage is targeted at every frame boundary and header plus a random sample): every truncation point and every single-bit flip through the library load; the '
                                 'command-line route is exhaustive for the files marked small; subcommand and crash-point parts are as counted'}
